@@ -9,6 +9,7 @@ for v in a b; do
   [ -n "$ROUND3" ] && { [ $v = a ] && n=e || n=f; }
   [ -n "$ROUND4" ] && { [ $v = a ] && n=g || n=h; }
   [ -n "$ROUND5" ] && { [ $v = a ] && n=i || n=j; }
+  [ -n "$ROUND6" ] && { [ $v = a ] && n=k || n=l; }
   dst=seeded/$ID-$n
   mkdir -p $dst
   cp $src/patch.diff $src/demo.py $dst/ 2>/dev/null
